@@ -225,3 +225,6 @@ def run(ctx):
     from rules import c20, c06
     c20.constructor_rules(ctx, "R-C03.G.aggparam")
     c06.run_keys(ctx)
+    # "used in any admissible sequence on the same reports": the admissibility predicate must accept exactly the admissible
+    # histories (shared with C20)
+    c20.validity_rules(ctx, "R-C03.V")
